@@ -728,6 +728,35 @@ def missingCheck (o : Orc) : Orc × Option String :=
               | some vt => (firstOp vt true 0).bind fun vo => firstOp t false vo
           let srDrop := o.srOps.any (fun (t, sop) => t = trk && sop ≤ fpop && prevOp ≤ sop &&
             (match originOpOf trk with | some oo => oo ≤ sop | none => false))
+          -- an OLD sample closed the file: a sample (of any track) that the builder returned while a file was
+          -- open and that, by the sender reports both tracks had when the file was created, was captured 2^16
+          -- ticks of its clock or more (1.37 s of audio, 0.73 s of video) before the keyframe the file begins
+          -- with (e.g. audio recovered from the cache through a long gap); nothing has been written on any
+          -- track, nor a file been created, from then up to the moment this frame was returned
+          let wrapClosed : Option (Nat × Nat × Nat × Int) :=
+            match vtrk0 with
+            | none => none
+            | some vt =>
+              if o.codecs.length ≠ 2 then none else
+              o.pops.findSome? fun (t', ts', a) =>
+                if a > fpop then none else
+                match (o.fileOps.zipIdx.filter (fun (nf, _) => nf ≤ a)).getLast? with
+                | none => none
+                | some (nf, k) =>
+                  let srAt (t : Nat) : Bool := o.srGood.any (fun (t2, sop) => t2 = t && sop ≤ nf)
+                  if !(srConsistent o 0 && srConsistent o 1 && srAt 0 && srAt 1) then none else
+                  match (o.blocks.filter (fun b => b.trk = vt && b.file = k)).getLast? with
+                  | none => none
+                  | some v0 =>
+                    let fv := (o.frames.find? (fun g => g.trk = vt && g.fid = v0.fid)).getD default
+                    match capture o t' ts', capture o vt fv.ts with
+                    | some cs, some cv =>
+                      let e : Int := (v0.tm : Int) * 1000000 + (cs - cv)
+                      let lim : Int := 65536 * 1000000000 / ((o.rates.getD t' 1 : Nat) : Int)
+                      if e ≤ 3000000 - lim && !o.blocks.any (fun b => a < b.op && b.op ≤ fpop) &&
+                          !o.fileOps.any (fun n => a < n && n ≤ fpop)
+                      then some (t', ts', a, e / 1000000) else none
+                    | _, _ => none
           -- a sender report for ANOTHER track moved that track's origin, and since the first sample of that
           -- track that the builder returned afterwards nothing has been written on any track, nor a file
           -- been created, up to the moment this frame was returned
@@ -826,6 +855,9 @@ def missingCheck (o : Orc) : Orc × Option String :=
             (defer o s!"C20: [file-switch] frame {f.fid} of track {trk} ({cn}) is missing from the recording although every packet reached the recorder: it reached the recorder after file {k} had been started (keyframe with new dimensions) and {why}: it is before the time origin of the new file, the file it belongs to is closed, and the sample is dropped as late", none)
           else if srDrop then
             (defer o s!"C20: [SR-shift] frame {f.fid} of track {trk} ({cn}) is missing from the recording although every packet reached the recorder: a sender report moved the origin of the track past the frame's timestamp and the sample was dropped as late", none)
+          else if wrapClosed.isSome then
+            let (t', ts', a, e) := wrapClosed.getD (0, 0, 0, 0)
+            (defer o s!"C20: [wrap-close] frame {f.fid} of track {trk} ({cn}) is missing from the recording although every packet reached the recorder: a sample of track {t'} (timestamp {ts'}), returned by the sample builder in op {a} while a file was open, was captured {-e} ms before the keyframe the file begins with, by the sender reports: 2^16 ticks or more before the track's origin; the recorder takes a sample that old for a timestamp that has gone round 2^31, closes the file, and every track waits for the next keyframe; nothing has been written since", none)
           else if srClosed.isSome then
             let (t', a) := srClosed.getD (0, 0)
             (defer o s!"C20: [SR-shift] frame {f.fid} of track {trk} ({cn}) is missing from the recording although every packet reached the recorder: a sender report moved the origin of track {t'} past the timestamps of its samples; nothing at all has been written since its next sample was returned (op {a}): moved by 2^16 ticks or more, the recorder takes the sample for a timestamp wrap and closes the file, and every track waits for the next keyframe", none)
